@@ -85,6 +85,18 @@ func Bytes(name string, n int) []byte {
 
 func String(name string, n int) string { return string(Bytes(name, n)) }
 
+// FixedBytes returns n arbitrary but fixed bytes: the engine picks concrete
+// pseudo-random values (no fork) and records them, native replays read them.
+func FixedBytes(name string, n int) []byte { return Bytes(name, n) }
+
+// RandReader is a replacement for crypto/rand.Reader built on FixedBytes.
+type RandReader struct{}
+
+func (RandReader) Read(p []byte) (int, error) {
+	copy(p, FixedBytes("rand", len(p)))
+	return len(p), nil
+}
+
 // IntRange draws an integer assumed to lie in [lo, hi] (kept symbolic).
 func IntRange(name string, lo, hi int) int {
 	v := Int(name)
